@@ -229,6 +229,7 @@ func VerifC09_q_reloadWhileAllocating() {
 		return
 	}
 	verifReach("bind-completed-inside-reload")
+	all0 := w.ips
 	w.ips = kept
 	for _, ip := range vpBoundIPs(w.pods[name]) {
 		if !vpHas(kept, ip) {
@@ -241,6 +242,13 @@ func VerifC09_q_reloadWhileAllocating() {
 			}
 		}
 		verifAssert("C09/allocation-during-reload-kept", owned, "an allocation that completed while a reload was in progress is missing from the table although its IP is still configured: "+ip)
+	}
+	for _, x := range all0 {
+		if !vpHas(kept, x) {
+			inA, inU := floatingip.VerifTables(w.innerIPAM(), x)
+			_, inStore := w.store.Objs[x]
+			verifAssert("C09/concurrent-reload-drops-deconfigured", !inA && !inU && !inStore, "after a reload that overlapped an allocation a de-configured IP is still in the tables or in the store: "+x)
+		}
 	}
 	verifAssert("C09/agree-after-concurrent-reload", w.agree(), "memory and store disagree after a reload that overlapped an allocation")
 }
